@@ -221,3 +221,57 @@ def c02(tier, seed, work):
 
 
 CHECKS.update({"C01": c01, "C02": c02})
+
+
+# ----------------------------------------------------------------- walks (expectation carried by the script)
+def walk_check(pid, tier, seed, work, mcs_spec, mutants, fam_specs, rule):
+    mcs = [F.model_check(m, c, work, workers=8) for m, c in mcs_spec]
+    killed = []
+    for module, cfg, inv in mutants:
+        if not F.expect_violation(module, cfg, work, inv):
+            raise vlib.Inconclusive("model mutant %s did not violate %s" % (cfg, inv))
+        killed.append({"cfg": cfg, "violates": inv})
+    fams = []
+    for fs in fam_specs:
+        kind = fs.pop("kind", "walk")
+        fams.append(F.handshake_family(work, **fs) if kind == "handshake" else F.walk_family(work, **fs))
+    require_accepted(fams)
+    viols = []
+    for f in fams:
+        viols += flatten(f)
+    attach_scripts(viols)
+    n = sum(f["scripts"] for f in fams)
+    cov = {"states": sum(m["distinct"] for m in mcs), "transitions": sum(m["generated"] for m in mcs),
+           "model_checking": mcs, "model_mutants_killed": killed,
+           "traces_validated_against_impl": n, "events_validated": sum(f["events"] for f in fams),
+           "evaluations": n, "distinct_nontrivial": n, "rule": rule,
+           "families": fam_cov(fams), "samples": [sample_script(f) for f in fams[:3]]}
+    return {"level": "model_checking", "coverage": cov, "viols": viols, "assumptions": COMMON_ASSUME}
+
+
+def c12(tier, seed, work):
+    fams = [dict(name="c12-selection", module="MCGenCipher", cfg_tpl="Gen_Cipher.cfg.tpl", family="selection", tier=tier, seed=seed),
+            dict(kind="handshake", name="c12-triples", family="triples", tier=tier, seed=seed),
+            dict(kind="handshake", name="c12-none", family="honest", tier="quick", seed=seed)]
+    muts = [("Handshake", "Mutant_Handshake_CompareAlgs.cfg", "C02_OnlyIfAuthentic"), ("Handshake", "Mutant_Handshake_RefuseNone.cfg", "C12_NeverPanics")]
+    return walk_check("C12", tier, seed, work, [("MCCipherSelect", "MC_CipherSelect.cfg"), ("Handshake", "MC_Handshake.cfg")],
+                      muts if tier != "quick" else [], fams,
+                      "Selection is a pure function checked by TLC over every preference list of length 0..3 over 5 suites x every "
+                      "advertised subset (ASSUME in MCCipherSelect); the same cases are replayed (rule-driven BMC serving the advertised "
+                      "records by list index) and the Open Session Request on the wire is parsed by TLC; every algorithm triple from "
+                      "{None, defined, OEM, unknown}^3 is placed in the Open Session Response of otherwise honest handshakes. One script "
+                      "per (preference list, advertised set) / (proposal, triple).")
+
+
+def c16(tier, seed, work):
+    fams = [dict(name="c16-discovery", module="MCGenCipher", cfg_tpl="Gen_Cipher.cfg.tpl", family="discovery", tier=tier, seed=seed)]
+    muts = [("MCCipherSelect", "Mutant_CipherSelect_ShortStop.cfg", "C16_StopsAtShortChunkInclExactMultiple"),
+            ("MCCipherSelect", "Mutant_CipherSelect_Concat.cfg", "C16_MalformedGivesErrorNotPartial")]
+    return walk_check("C16", tier, seed, work, [("MCCipherSelect", "MC_CipherSelect.cfg")], muts if tier != "quick" else [], fams,
+                      "CipherSelect.tla (chunked retrieval + record grammar) checked exhaustively for lists of <= 3 records from a "
+                      "5-record universe x 6 malformed tails; generated lists of 0..20 standard/OEM records with 0..3 algorithms per "
+                      "class, including encodings that are exact multiples of 16 bytes, and malformed tails, served by a rule-driven "
+                      "BMC; result and request sequence compared by TLC with the specification's.")
+
+
+CHECKS.update({"C12": c12, "C16": c16})
